@@ -1,6 +1,8 @@
 package main
 
 import (
+	"runtime/debug"
+	"runtime/pprof"
 	"os/exec"
 	"flag"
 	"fmt"
@@ -15,13 +17,23 @@ func main() {
 		fmt.Fprintln(os.Stderr, "usage: govc dump|verify|check ...")
 		os.Exit(2)
 	}
+	// term construction allocates heavily and nothing is freed before exit: trade memory for collector time
+	debug.SetGCPercent(800)
+	debug.SetMemoryLimit(40 << 30)
+	if pf := os.Getenv("GOVC_PROF"); pf != "" {
+		f, _ := os.Create(pf)
+		pprof.StartCPUProfile(f)
+		defer pprof.StopCPUProfile()
+	}
 	switch os.Args[1] {
 	case "dump":
 		cmdDump(os.Args[2:])
 	case "verify":
 		cmdVerify(os.Args[2:])
 	case "check":
-		os.Exit(cmdCheck(os.Args[2:]))
+		rc := cmdCheck(os.Args[2:])
+		pprof.StopCPUProfile()
+		os.Exit(rc)
 	default:
 		fmt.Fprintln(os.Stderr, "unknown command")
 		os.Exit(2)
